@@ -6,7 +6,11 @@ Inductive c15case :=
 | CSer (data : bytes) (comp : N) (lvl : Z) (cks : N)
        (c dres go_s : res bytes) (go_dt go_df : res (bytes * N))
 | CRaw (s : bytes) (u : bool) (dres : res bytes) (go : res (bytes * N))
-| CCorrupt (s0 : bytes) (pos : nat) (b' : N) (u : bool) (dres : res bytes) (go : res (bytes * N)).
+| CCorrupt (s0 : bytes) (pos : nat) (b' : N) (u : bool) (dres : res bytes) (go : res (bytes * N))
+(* payloads too large to be written into a Coq file (32 KiB .. several MiB): the driver compares
+   bytes itself and reports only the facts the property speaks about; judged by the oracle only *)
+| CBigSer (len comp cks : N) (ser_ok rt_equal raw_ok : bool)
+| CBigCorrupt (len comp cks : N) (pos : N) (lib_detects : bool) (go : oclass).
 
 Definition res_eqb {A} (eqb : A -> A -> bool) (a b : res A) : bool :=
   match a, b with
@@ -38,6 +42,8 @@ Definition model_ok (c : c15case) : bool :=
     end
   | CRaw s u dres go => res_eqb pair_eqb (deserialize (oracle Err dres) s u) go
   | CCorrupt s0 pos b' u dres go => res_eqb pair_eqb (deserialize (oracle Err dres) (set_nth s0 pos b') u) go
+  | CBigSer _ _ _ _ _ _ => true
+  | CBigCorrupt _ _ _ _ _ _ => true
   end.
 
 (* property-level oracle evaluated on what the implementation returned.
@@ -74,6 +80,20 @@ Definition spec_class (c : c15case) : nat :=
            else 0%nat
          | [] => 0%nat
          end
+  | CBigSer len comp cks ser_ok rt_equal raw_ok =>
+    if lossless_b comp && ((cks =? n_NoChecksum) || (cks =? n_CRC32))
+    then (if ser_ok && rt_equal && raw_ok then 0%nat else 2%nat)
+    else 0%nat
+  | CBigCorrupt len comp cks pos lib_detects go =>
+    match go with
+    | OPanic => 1%nat
+    | OErr => 0%nat
+    | OOk =>
+      (* DVID's own CRC covers every payload and checksum byte when it is stored (not for Gzip,
+         which carries its own); an error reported by the decoder must never be turned into data *)
+      if ((cks =? n_CRC32) && negb (comp =? n_Gzip) && (1 <=? pos)) || lib_detects
+      then 3%nat else 0%nat
+    end
   end.
 
 Fixpoint classify_from (i : nat) (l : list c15case) : list (nat * nat) :=
